@@ -566,6 +566,9 @@ def check_objects(ck, hb, quick, replay):
     return stats
 
 def main(replay=None):
+    if replay:          # the generated part of the catalog (two random head models) depends on the seed: replay under the stored one
+        sd = json.load(open(replay)).get("seed")
+        if sd is not None: os.environ["VERIF_SEED"] = str(sd)
     ck = core.Check(PROP, "proof")
     quick = ck.tier != "thorough"
     import glob
